@@ -128,6 +128,17 @@ CHECKS = {
         "quadrature nodes are representable; arbitrary locations are covered by the pointwise facet.",
         "4/C16",
     ),
+    "C04": (
+        "Hypothesis-generated beam/gravity/detector geometries on both sides of the dispatch vs the documented "
+        "construction in 50-digit mpmath; differential continuity relation between the two code paths; limits",
+        "Generated-input search against a 50-digit reference of the documented construction (raised beam, Kahan angle, "
+        "azimuth in the beam-aligned frame) for tilts 0 and 1e-12..1 rad, all detector directions, |g| 0+..100, "
+        "wavelength 0..100 A, dense/binned, float32/float64; a metamorphic continuity facet compares tilt 0 with tilt "
+        "1e-9..1e-7 (the two implementations); limits lambda->0, g->0; reflectometry variant incl. its refusal.",
+        "Trusted: mpmath; the documented L2' ~ L2 approximation is part of the construction. Tolerance 1e-9 rad "
+        "(float64), 5e-6 (float32), widened by 2e-10/|b1| where the dispatch may legitimately pick the optimised path.",
+        "4/C04",
+    ),
 }
 
 NOT_YET = "check not built yet (work in progress; every property is planned to be claimed, see DESIGN.md section 4)"
